@@ -46,7 +46,7 @@ func init() {
 			"substitutions, malformed compact forms - and each tamper is applied to the untampered previous state: refused with the state untouched, or (recover with a bad " +
 			"delta only) applied with an empty document. distinct_nontrivial = distinct (operation type, key type, hash algorithm) bases that were accepted untampered",
 		Cases: func(master uint64, tier string) []Case {
-			n := 64
+			n := 160
 			if tier == "thorough" {
 				n = 5500
 			}
